@@ -34,12 +34,27 @@ func (s *Shrinker) try(tr *Trace) (bool, *Violation) {
 		return false, nil
 	}
 	s.Runs++
-	c := tr.Clone()
-	res := Execute(s.T, c, nil, s.Prop, s.Bubble)
-	if s.Prop == "C01" && c.HasFlag("twin") && len(res.Violations) == 0 {
-		applyTwin(res, c)
+	// C01 violations may be nondeterministic in the code under test (map order): give a candidate
+	// a few executions before deciding it no longer fails, or minimisation stops at the first
+	// execution that happens to pass
+	attempts := 1
+	if s.Prop == "C01" {
+		attempts = 4
 	}
-	return hasClass(res, s.Class)
+	for a := 0; a < attempts; a++ {
+		c := tr.Clone()
+		res := Execute(s.T, c, nil, s.Prop, s.Bubble)
+		if s.Prop == "C01" && c.HasFlag("twin") && len(res.Violations) == 0 {
+			applyTwin(res, c)
+		}
+		if ok, v := hasClass(res, s.Class); ok {
+			return ok, v
+		}
+		if time.Now().After(s.deadline) {
+			break
+		}
+	}
+	return false, nil
 }
 
 func (s *Shrinker) Minimise(tr *Trace) *Trace {
